@@ -111,7 +111,20 @@ def regex_call(I, how, pattern, s):
         mv = MatchVal(s, m.start(), m.end(), dict(m.groupdict()), False, key)
         mv.declared_only = True
         return mv
+    if src is not None and isinstance(s, Sym) and s.parts is not None and how in ('match', 'fullmatch', 'search') \
+            and src.startswith('^'):
+        from . import rxstruct
+        flags = pattern.flags if isinstance(pattern, CompiledPattern) else 0
+        r = rxstruct.match(I, src, flags, s)
+        if r is None:
+            return None
+        groups, end = r
+        mv = MatchVal(s, 0, None, groups, False, key)
+        mv.declared_only = True
+        return mv
     env = getattr(I.env.current, 'regex_env', None) or {}
+    if src is not None and key not in env:
+        raise Unsupported(f'concrete regex {key[:40]!r} applied to an unstructured symbolic string')
     mode = env.get(key, env.get('*', 'any'))
     cnt = I.p.ghost.setdefault(('rxcount', key), [0])
     cnt[0] += 1
